@@ -25,6 +25,7 @@ structure Sh where
   -- ghosts
   logical : Nat := 0      -- suspends minus resumes, counted at their dq_state rmw
   tr : Tr := .none
+deriving DecidableEq
 
 def holds : Pc → Bool
   | .sRmw | .sSide | .rRmw | .rSide => true
@@ -320,6 +321,71 @@ theorem suspended_iff {s : St} (h : Reachable s) :
     · rintro (hc | hb)
       · omega
       · have := gb.mp hb; omega
+
+/-! ### F23: the temporary suspension of a property setter
+`dispatch_set_target_queue` / `dispatch_queue_set_width` on an active idle queue run their change under the barrier plus one
+suspension of their own (`_dispatch_barrier_trysync_or_async_f`) and give it back in
+`_dispatch_barrier_trysync_or_async_f_complete`. As found, the give-back was a bare subtraction of one interval from `dq_state`;
+with the inline count at 0 and the rest in the side counter it wraps the 6-bit field. Since the repair it is the `resume` step of
+this model (the same loop, and `_dispatch_lane_resume` when the inline count is 0), so the theorems above cover it; the
+replay of real traces checks every such transition against `step … .resume`. -/
+
+/-- one thread running a list of operations, each continued until the thread is idle again is not required: a slow path is
+    written out as the operations that drive it (the operation is only read in `idle`) -/
+def runT (t : Tid) (sh : Sh) (pc : Pc) : List Op → Option (Sh × Pc)
+  | [] => some (sh, pc)
+  | op :: ops => match step sh t pc op with
+    | [] => none
+    | r :: _ => runT t r.1 r.2 ops
+
+theorem runT_reachable (t : Tid) (ops : List Op) (s : St) (sh' : Sh) (pc' : Pc) (hs : Reachable s)
+    (h : runT t s.sh (s.pcs t) ops = some (sh', pc')) :
+    Reachable { sh := sh', pcs := fun t' => if t' = t then pc' else s.pcs t' } := by
+  induction ops generalizing s with
+  | nil =>
+    simp only [runT] at h
+    have e1 : s.sh = sh' := congrArg Prod.fst (Option.some.inj h)
+    have e2 : s.pcs t = pc' := congrArg Prod.snd (Option.some.inj h)
+    have : (fun t' => if t' = t then pc' else s.pcs t') = s.pcs := by
+      funext t'; by_cases e : t' = t
+      · rw [if_pos e, e, e2]
+      · rw [if_neg e]
+    rw [this, ← e1]; exact hs
+  | cons op ops ih =>
+    simp only [runT] at h
+    cases hst : step s.sh t (s.pcs t) op with
+    | nil => rw [hst] at h; cases h
+    | cons r rest =>
+      rw [hst] at h
+      have hr : Reachable { sh := r.1, pcs := fun t' => if t' = t then r.2 else s.pcs t' } :=
+        .step hs (.mk s t op r.1 r.2 (by rw [hst]; exact List.mem_cons_self))
+      have h2 : runT t r.1 r.2 ops = some (sh', pc') := h
+      have h3 := ih { sh := r.1, pcs := fun t' => if t' = t then r.2 else s.pcs t' } hr (by simpa using h2)
+      have e : (fun t' => if t' = t then pc' else (if t' = t then r.2 else s.pcs t')) = (fun t' => if t' = t then pc' else s.pcs t') := by
+        funext t'; by_cases e : t' = t
+        · rw [if_pos e, if_pos e]
+        · rw [if_neg e, if_neg e, if_neg e]
+      have h4 : Reachable { sh := sh', pcs := fun t' => if t' = t then pc' else (if t' = t then r.2 else s.pcs t') } := h3
+      rw [e] at h4; exact h4
+
+/-- the give-back as found: one interval subtracted from the word, whatever the inline count is -/
+def rawGiveBack (sh : Sh) : Sh := { sh with c := (sh.c + MAXC) % (MAXC + 1), logical := sh.logical - 1 }
+
+/-- 64 suspensions (the setter's and 63 nested by another thread, the 64th through the slow path), then 32 resumes -/
+def f23Ops : List Op := List.replicate 63 .suspend ++ [.suspend, .suspend, .suspend, .suspend] ++ List.replicate 32 .resume
+
+theorem f23_state : runT 1 {} .idle f23Ops = some ({ c := 0, sbit := true, side := 32, logical := 32 }, .idle) := by decide
+
+/-- **F23 as found**: a reachable state with 32 suspensions outstanding (the setter's among them) in which the bare subtraction
+    leaves inline count + side count = 95 for 31 outstanding suspensions - 64 resumes too many are needed. -/
+theorem F23_as_found : ∃ s, Reachable s ∧ s.sh.logical = 32 ∧
+    (rawGiveBack s.sh).c + (rawGiveBack s.sh).side = (rawGiveBack s.sh).logical + 64 := by
+  refine ⟨_, runT_reachable 1 f23Ops { sh := {}, pcs := fun _ => .idle } _ _ .init f23_state, rfl, by decide⟩
+
+/-- **F23 repaired**: given back by the model's `resume` step, the count stays exact (this is `suspend_count_exact` at the state
+    after the step; stated for the witness: the resume goes through the side-count transfer and leaves 31). -/
+theorem F23_fixed : runT 1 {} .idle (f23Ops ++ [.resume, .resume, .resume, .resume]) =
+    some ({ c := 31, sbit := false, side := 0, logical := 31 }, .idle) := by decide
 
 end SuspendP
 
